@@ -299,6 +299,14 @@ func TestC05Burst(t *testing.T) {
 	rapid.Check(t, func(rt *rapid.T) { burstCase(rt, "C05", col, false) })
 }
 
+// TestC01Burst: overlapping requests never start more jobs than the pipeline's concurrency allows.
+func TestC01Burst(t *testing.T) {
+	col := ev.Get("C01", "burst", burstRule+" (for C01 the clause at stake is the number of jobs started by the burst: never more than the free slots)")
+	atomic.StoreInt64(&taskctl.VerifPause, int64(50*time.Microsecond))
+	defer atomic.StoreInt64(&taskctl.VerifPause, 0)
+	rapid.Check(t, func(rt *rapid.T) { burstCase(rt, "C01", col, false) })
+}
+
 // TestC07Burst: a burst on a replace pipeline with start delay converges to one job.
 func TestC07Burst(t *testing.T) {
 	col := ev.Get("C07", "burst", burstRule+" (here: always replace with start delay)")
